@@ -1,7 +1,214 @@
-//! C17 harness (stub until built)
+//! C17: pipelines are selected and compiled independently.
+//!
+//! request : C17.select \t <dx|vk|vkba|msl> \t <all|name=X|nopipeline> \t <pipes> \t <program seed> \t bare=<ok|err>
+//!   pipes : `P0:Compute=cs_0;P1!:Vertex=vs_1,Pixel=ps_2` (what the generated file defines, in order; `!` = this
+//!           pipeline fails to build when it is the only one in the file; bare = no-pipeline build of the bare file)
+//! observe : ok:[Stage(entry),...][...] | err:none | err:unknown:X | err:build | panic:<site>
+//! oracle  : (independent of the model) metamorphic comparison on the real compile():
+//!           whole-file result i == result of compiling pipeline i by name == result of compiling a
+//!           file in which the other Pipeline definitions were deleted; unknown name / no pipeline are
+//!           clean errors; no-pipeline mode returns exactly one result.
+use crate::compile_util::*;
+use crate::progen::*;
 use crate::util::*;
 
-pub fn run(_args: &Args, _out: &mut Out) {
-    eprintln!("C17: harness not built yet");
-    std::process::exit(2);
+fn show_outcome(o: &CompileOutcome) -> String {
+    match o {
+        CompileOutcome::Ok(ps) => {
+            let mut s = String::from("ok:");
+            for p in ps {
+                let st: Vec<String> = p.stages.iter().map(|(st, e, _)| format!("{}({})", st, e)).collect();
+                s.push_str(&format!("[{}]", st.join(",")));
+            }
+            s
+        }
+        CompileOutcome::Err(e) => {
+            if e == "Shader does not contain a single pipeline" {
+                "err:none".into()
+            } else if let Some(n) = e.strip_prefix("Shader does not contain the pipeline: ") {
+                format!("err:unknown:{}", n)
+            } else {
+                "err:build".into()
+            }
+        }
+        CompileOutcome::Panic(p) => format!("panic:{}", p),
+    }
+}
+
+fn describe(o: &CompileOutcome) -> String {
+    match o {
+        CompileOutcome::Ok(ps) => format!("Ok({} pipelines, {})", ps.len(), o.digest()),
+        CompileOutcome::Err(e) => format!("Err({})", one_line(&e.chars().take(80).collect::<String>())),
+        CompileOutcome::Panic(p) => format!("Panic({})", p),
+    }
+}
+
+/// Results of compiling each pipeline alone in the file (the other Pipeline definitions deleted), and
+/// of no-pipeline mode on the file without any Pipeline definition: the `build` parameter of the model.
+struct Alone {
+    each: Vec<CompileOutcome>,
+    bare: CompileOutcome,
+}
+
+fn alone_results(prog: &Program, tgt: Tgt) -> Alone {
+    let each = (0..prog.pipes.len())
+        .map(|i| compile_src(&render(prog, &|k| k == i), tgt, Mode::All))
+        .collect();
+    let bare = compile_src(&render(prog, &|_| false), tgt, Mode::NoPipeline);
+    Alone { each, bare }
+}
+
+fn run_one(seed: u64, tgt: Tgt, mode: &Mode, out: &mut Out, hist: &mut Hist) {
+    let mut rng = Rng::new(seed);
+    let prog = gen_program(&mut rng, &GenOpts::default());
+    let src = render(&prog, &|_| true);
+    let alone = alone_results(&prog, tgt);
+    // pipelines whose own build fails are flagged with `!` (input of the model: which builds fail)
+    let pipes: Vec<String> = describe_pipes(&prog, &|_| true)
+        .split(';')
+        .filter(|s| !s.is_empty())
+        .enumerate()
+        .map(|(i, d)| {
+            if matches!(alone.each[i], CompileOutcome::Ok(_)) { d.to_string() } else { d.replacen(':', "!:", 1) }
+        })
+        .collect();
+    let bare_flag = if matches!(alone.bare, CompileOutcome::Ok(_)) { "bare=ok" } else { "bare=err" };
+    let req = format!(
+        "C17.select\t{}\t{}\t{}\t{}\t{}",
+        tgt.name(),
+        mode.show(),
+        pipes.join(";"),
+        seed,
+        bare_flag
+    );
+    let result = compile_src(&src, tgt, mode.clone());
+    let obs = show_outcome(&result);
+    hist.add(&format!("pipes={}", prog.pipes.len()));
+    hist.add(&format!("mode={}", match mode { Mode::All => "all", Mode::Named(_) => "named", Mode::NoPipeline => "nopipeline" }));
+    hist.add(&format!("outcome={}", obs.split(':').take(2).collect::<Vec<_>>().join(":").split('[').next().unwrap_or("")));
+    let mut fails: Vec<String> = Vec::new();
+    if let CompileOutcome::Panic(p) = &result {
+        fails.push(format!("panic {}", p));
+    }
+    match mode {
+        Mode::All => {
+            if prog.pipes.is_empty() {
+                if result != CompileOutcome::Err("Shader does not contain a single pipeline".into()) {
+                    fails.push(format!("file without pipelines: {}", describe(&result)));
+                }
+            }
+            // every pipeline: by name == alone in the file == position i of the whole-file result
+            for (i, pipe) in prog.pipes.iter().enumerate() {
+                let named = compile_src(&src, tgt, Mode::Named(pipe.name.clone()));
+                let alone = alone.each[i].clone();
+                if named != alone {
+                    fails.push(format!(
+                        "pipeline {} by name {} but alone in the file {}",
+                        pipe.name,
+                        describe(&named),
+                        describe(&alone)
+                    ));
+                }
+                if let CompileOutcome::Ok(all) = &result {
+                    if all.len() != prog.pipes.len() {
+                        fails.push(format!("{} results for {} pipelines", all.len(), prog.pipes.len()));
+                        break;
+                    }
+                    if named != CompileOutcome::Ok(vec![all[i].clone()]) {
+                        fails.push(format!(
+                            "pipeline {} differs between whole-file result and by-name result {}",
+                            pipe.name,
+                            describe(&named)
+                        ));
+                    }
+                } else if let CompileOutcome::Err(_) = &result {
+                    // the whole file fails only if some pipeline fails on its own
+                    hist.add("whole-file-error");
+                }
+            }
+            if let CompileOutcome::Err(e) = &result {
+                if !prog.pipes.is_empty() {
+                    let any_alone_fails = prog.pipes.iter().any(|p| {
+                        !matches!(compile_src(&src, tgt, Mode::Named(p.name.clone())), CompileOutcome::Ok(_))
+                    });
+                    if !any_alone_fails {
+                        fails.push(format!("whole file fails ({}) but every pipeline compiles by name", one_line(e)));
+                    }
+                }
+            }
+        }
+        Mode::Named(n) => {
+            let exists = prog.pipes.iter().any(|p| &p.name == n);
+            if !exists {
+                let want = CompileOutcome::Err(format!("Shader does not contain the pipeline: {}", n));
+                if result != want {
+                    fails.push(format!("unknown name {}: {}", n, describe(&result)));
+                }
+            } else if let CompileOutcome::Ok(v) = &result {
+                if v.len() != 1 {
+                    fails.push(format!("{} results for one name", v.len()));
+                }
+            }
+        }
+        Mode::NoPipeline => match &result {
+            CompileOutcome::Ok(v) if v.len() == 1 && v[0].stages.is_empty() => {
+                // same output when the file defines no pipelines at all
+                if alone.bare != result {
+                    fails.push("no-pipeline output depends on the pipeline definitions in the file".into());
+                }
+            }
+            CompileOutcome::Ok(v) => fails.push(format!("no-pipeline mode returned {} results", v.len())),
+            CompileOutcome::Err(_) => hist.add("nopipeline-error"),
+            CompileOutcome::Panic(_) => {}
+        },
+    }
+    let oracle = if fails.is_empty() { "ok".to_string() } else { format!("FAIL:{}", fails[0]) };
+    out.case(&req, &obs, &oracle);
+}
+
+fn parse_mode(s: &str) -> Option<Mode> {
+    if s == "all" {
+        Some(Mode::All)
+    } else if s == "nopipeline" {
+        Some(Mode::NoPipeline)
+    } else {
+        s.strip_prefix("name=").map(|n| Mode::Named(n.to_string()))
+    }
+}
+
+pub fn run(args: &Args, out: &mut Out) {
+    let mut hist = Hist::default();
+    if let Some(lines) = args.request_lines() {
+        for line in lines {
+            let f: Vec<&str> = line.split('\t').collect();
+            if f.len() != 6 || f[0] != "C17.select" {
+                continue;
+            }
+            let (Some(t), Some(m), Ok(seed)) = (Tgt::parse(f[1]), parse_mode(f[2]), f[4].parse::<u64>()) else {
+                continue;
+            };
+            run_one(seed, t, &m, out, &mut hist);
+        }
+        out.stat(&format!("{{\"mode\":\"replay\",\"hist\":{}}}", hist.json()));
+        return;
+    }
+    let n = args.n.unwrap_or(if args.thorough() { 5000 } else { 300 });
+    let mut rng = Rng::new(args.seed);
+    for _ in 0..n {
+        let seed = rng.next() >> 16;
+        let probe = gen_program(&mut Rng::new(seed), &GenOpts::default());
+        for tgt in ALL_TARGETS {
+            run_one(seed, tgt, &Mode::All, out, &mut hist);
+            // one existing name, one unknown name, no-pipeline mode
+            if !probe.pipes.is_empty() {
+                let k = rng.below(probe.pipes.len() as u64) as usize;
+                run_one(seed, tgt, &Mode::Named(probe.pipes[k].name.clone()), out, &mut hist);
+            }
+            if tgt == Tgt::Dx || rng.chance(1, 4) {
+                run_one(seed, tgt, &Mode::Named("Nope".into()), out, &mut hist);
+                run_one(seed, tgt, &Mode::NoPipeline, out, &mut hist);
+            }
+        }
+    }
+    out.stat(&format!("{{\"programs\":{},\"hist\":{}}}", n, hist.json()));
 }
